@@ -889,6 +889,16 @@ class HistoryMachine(ListingBase):
                                 % (arg, e))
             except Exception:
                 pass              # the selection need not be valid there
+        if ch[0] % 7 == 6:
+            # a first attempt is cut short by a transient read error; the caller goes back to
+            # where it was and asks again
+            at_index = lst.index
+            if self.faulted(lambda: lst.history(arg, short=short), what + ' (first attempt)',
+                            (ch[0] // 7) % 400):
+                ctx.probes['history_interrupted_then_repeated'] += 1
+                self.guarded(lambda: setattr(lst, 'index', at_index), 'index = %d after an '
+                             'interrupted history()' % at_index)
+                before = self.snap(lst)
         res = self.guarded(lambda: lst.history(arg, short=short), what)
         ctx.stats['op_HISTORY'] += 1
         ctx.state_changes += 1
